@@ -678,6 +678,8 @@ func c06R4(p *core.Prog, r *core.Report, rule string) {
 					// a nil test that leaves the loop without returning an error must be the link test
 					kind = ""
 				}
+			} else if ex, ok := cnd.(*ssa.Extract); ok && linkHelperSaysNoMore(p, ex) {
+				kind = "no rel=next link returned (decided in a helper)"
 			} else if bo, ok := cnd.(*ssa.BinOp); ok {
 				usesLimit := false
 				for _, side := range []ssa.Value{bo.X, bo.Y} {
@@ -1146,4 +1148,61 @@ func c06R11(p *core.Prog, r *core.Report) {
 	}
 	r.Check(bad == "", rule, p.FuncName(fn), "order-free merge", p.Pos(fn.Pos()),
 		"tag names are compared by order at "+bad+" while a page is merged: what is kept depends on the order in which the registry returns its tags, and tags that sort before the end of the previous page are dropped")
+}
+
+// linkHelperSaysNoMore: the bool is a result of a module helper that looks for the next link: the
+// helper calls into internal/httplink, and it answers false without an error only behind the failure
+// of such a call (there is no rel="next" link).
+func linkHelperSaysNoMore(p *core.Prog, ex *ssa.Extract) bool {
+	call, ok := ex.Tuple.(*ssa.Call)
+	if !ok {
+		return false
+	}
+	g := call.Call.StaticCallee()
+	if g == nil || !p.InModule(g) || len(g.Blocks) == 0 {
+		return false
+	}
+	res := g.Signature.Results()
+	if ex.Index >= res.Len() || !types.Identical(res.At(ex.Index).Type(), types.Typ[types.Bool]) {
+		return false
+	}
+	isLink := func(c *ssa.Call) bool {
+		cal := core.Callee(c)
+		return cal != nil && cal.Pkg() != nil && cal.Pkg().Path() == modPath("internal/httplink")
+	}
+	calls := false
+	core.Calls(g, func(c ssa.CallInstruction) {
+		if cc, ok := c.(*ssa.Call); ok && isLink(cc) {
+			calls = true
+		}
+	})
+	if !calls {
+		return false
+	}
+	last := res.Len() - 1
+	for _, ret := range core.Returns(g) {
+		b, isConst := core.ConstBool(core.ReturnOperand(ret, ex.Index))
+		if !isConst {
+			return false
+		}
+		if b || !isErr(res.At(last).Type()) || !core.IsNilConst(core.ReturnOperand(ret, last)) {
+			continue // "there is more", or an error return
+		}
+		behind := anyGuard(ret.Block(), func(c ssa.Value, pol bool) bool {
+			x, neq, isCmp := errCmpNil(c)
+			if !isCmp || neq != pol {
+				return false
+			}
+			for _, oc := range originCalls(x) {
+				if isLink(oc) {
+					return true
+				}
+			}
+			return false
+		})
+		if !behind {
+			return false
+		}
+	}
+	return true
 }
